@@ -151,3 +151,35 @@ def check(prog, rep, tier):
                 loc = f.where(p.exit[2]) if p.exit[2] is not None else f.where()
                 rep.bad("C16.total-bounded", f"{ctx}.{f.src_name}", f"self.{tot_field} = {nshow(v)}",
                         f"element total left in {fmt_iv(iv)}, outside the footer slot range {fmt_iv(tot_slot)}", loc)
+
+
+# ----------------------------------------------------------------------------- self-test variants
+import ast as _ast
+from ..selftest import Mutant, del_stmt, insert_stmt, replace_expr, replace_stmt, seq, swap_cmp
+
+FILES = ["blooms/countingbloom.py", "countminsketch/countminsketch.py"]
+_CB, _CM = "blooms/countingbloom.py", "countminsketch/countminsketch.py"
+MUTANTS = [
+    Mutant("D3 re-introduced: clamp test on a snapshot taken before the loop", _CB,
+           seq(insert_stmt("CountingBloomFilter", "add_alt", "snap = [self._bloom[k] + num_els for k in indices]", before="for i, k in"),
+               replace_expr("CountingBloomFilter", "add_alt", "v > UINT32_T_MAX", "snap[i] > UINT32_T_MAX")), rule="C16.cell"),
+    Mutant("counting add_alt: clamp deleted", _CB, del_stmt("CountingBloomFilter", "add_alt", "if v > UINT32_T_MAX"), rule="C16.cell"),
+    Mutant("D4 re-introduced in union", _CB, replace_expr("CountingBloomFilter", "union", "min(tmp, UINT32_T_MAX)", "tmp"), rule="C16.cell"),
+    Mutant("D4 re-introduced in intersection", _CB, replace_expr("CountingBloomFilter", "intersection", "min(tmp, UINT32_T_MAX)", "tmp"), rule="C16.cell"),
+    Mutant("counting remove_alt: guard < -> <=", _CB, swap_cmp("CountingBloomFilter", "remove_alt", _ast.Lt, _ast.LtE), rule="C16.pinned"),
+    Mutant("counting add_alt: total not clamped", _CB,
+           replace_expr("CountingBloomFilter", "add_alt", "min(self.elements_added + num_els, UINT64_T_MAX)", "self.elements_added + num_els"), rule="C16.total"),
+    Mutant("count-min add_alt: clamp branch stores the raw value", _CM,
+           replace_stmt("CountMinSketch", "add_alt", "self._bins[idx] = INT32_T_MAX", "self._bins[idx] = val"), rule="C16.cell"),
+    Mutant("count-min remove_alt: lower clamp test > -> >= on the wrong constant", _CM,
+           replace_expr("CountMinSketch", "remove_alt", "val > INT32_T_MIN", "val > INT64_T_MIN"), rule="C16.cell"),
+    Mutant("count-min join: upper clamp dropped", _CM,
+           replace_expr("CountMinSketch", "join", "tmp_els > INT32_T_MAX", "tmp_els > INT64_T_MAX"), rule="C16.cell"),
+    Mutant("count-min add_alt: total clamp deleted", _CM, del_stmt("CountMinSketch", "add_alt", "if self.elements_added > INT64_T_MAX"), rule="C16.total"),
+    Mutant("count-min join: total lower clamp deleted", _CM,
+           replace_expr("CountMinSketch", "join", "self.elements_added < INT64_T_MIN", "self.elements_added < INT64_T_MIN - 1"), rule="C16.total"),
+    Mutant("clamp test v > LIMIT -> v >= LIMIT (behaviour preserving)", _CB,
+           replace_expr("CountingBloomFilter", "add_alt", "v > UINT32_T_MAX", "v >= UINT32_T_MAX"), expect="silent"),
+    Mutant("count-min clamp val > MAX -> val >= MAX (behaviour preserving)", _CM,
+           replace_expr("CountMinSketch", "add_alt", "val > INT32_T_MAX", "val >= INT32_T_MAX"), expect="silent"),
+]
